@@ -20,6 +20,7 @@ CONSTANTS
   A1 = a1
   A2 = a2
   ByMac = TRUE
+  RacyStart = FALSE
   MaxLoops = 3
   MaxDepth = 0
   Bounded = FALSE
